@@ -182,6 +182,10 @@ func c01Register(b *RoutingMatcherBuilder, conds map[string]*c01Cond) func(*rout
 					c.mask = 1 + uint8(vs.Choice(tag+".ipv", 3))
 					return b.addIpVersion(f, consts.IpVersionType(c.mask), ob)
 				case 7:
+					if c.sameSetAs != "" {
+						c.macs = append([][6]byte{}, conds[c.sameSetAs].macs...)
+						return b.addSourceMac(f, c.macs, ob)
+					}
 					for i := 0; i < n; i++ {
 						var m [6]byte
 						copy(m[:], vs.Bytes(tag+"#"+strconv.Itoa(i)+".mac", 6))
@@ -483,6 +487,27 @@ func Verif_C01_shared_set() {
 		r1.conds = []*c01Cond{c10}
 		return []*config_parser.RoutingRule{
 			{AndFunctions: []*config_parser.Function{f00}, Outbound: of0},
+			{AndFunctions: []*config_parser.Function{f10}, Outbound: of1},
+		}, []*c01Rule{r0, r1}
+	})
+}
+
+// Verif_C01_shared_mac: two rules whose mac() conditions list the very same addresses, each
+// possibly negated (so also mac(M) next to !mac(M)): each rule is judged as written - in particular
+// a negated MAC rule never matches a frame without a MAC and a positive one never does because of
+// its negated neighbour.
+func Verif_C01_shared_mac() {
+	c01Run(func(conds map[string]*c01Cond) ([]*config_parser.RoutingRule, []*c01Rule) {
+		of0, r0 := c01Outbound("r0", false)
+		f00, c00 := c01BuildCond("r0c0", []int{7}, 1, conds)
+		f01, c01 := c01BuildCond("r0c1", []int{3}, 1, conds)
+		r0.conds = []*c01Cond{c00, c01}
+		of1, r1 := c01Outbound("r1", false)
+		f10, c10 := c01BuildCond("r1c0", []int{7}, 1, conds)
+		c10.sameSetAs = "r0c0"
+		r1.conds = []*c01Cond{c10}
+		return []*config_parser.RoutingRule{
+			{AndFunctions: []*config_parser.Function{f00, f01}, Outbound: of0},
 			{AndFunctions: []*config_parser.Function{f10}, Outbound: of1},
 		}, []*c01Rule{r0, r1}
 	})
